@@ -73,13 +73,7 @@ func (d *DebugDialer) Dial(ctx context.Context, urlstr string) (conn net.Conn, b
 		// We must split response inside buffered bytes from other received
 		// bytes from server.
 		p := resBuf.Bytes()
-		h := len(p) // Head end index.
-		if n := bytes.Index(p, headEnd); n != -1 {
-			h = n + len(headEnd)
-		} else if n := bytes.Index(p, headEndLF); n != -1 {
-			// Peer uses bare LF as a line terminator.
-			h = n + len(headEndLF)
-		}
+		h := headLen(p)                // Head end index.
 		n := h + int(resContentLength) // Body end index.
 		if n > len(p) {
 			n = len(p)
@@ -131,10 +125,25 @@ func (rwc rwConn) Write(p []byte) (int, error) {
 	return rwc.w.Write(p)
 }
 
-var (
-	headEnd   = []byte("\r\n\r\n")
-	headEndLF = []byte("\n\n")
-)
+// headLen returns the length of the response head inside p: everything up to and
+// including the first empty line. Lines may end with CRLF or with a bare LF
+// (in any mix), so the bytes received right behind the head are free to
+// contain whatever line terminator sequences they like.
+// It returns len(p) if there is no empty line in p.
+func headLen(p []byte) int {
+	for i := 0; i < len(p); i++ {
+		if p[i] != '\n' {
+			continue
+		}
+		if i+1 < len(p) && p[i+1] == '\n' {
+			return i + 2
+		}
+		if i+2 < len(p) && p[i+1] == '\r' && p[i+2] == '\n' {
+			return i + 3
+		}
+	}
+	return len(p)
+}
 
 type prefetchResponseReader struct {
 	source io.Reader // Original connection source.
